@@ -1,5 +1,6 @@
 import PySMT.Proofs.C08Table
 import PySMT.Proofs.C08Model
+import PySMT.Proofs.C08Sound
 /-!
 # C08 — SMT-LIB import never misreads: the property theorems
 
@@ -15,9 +16,13 @@ What is proved here, and what is not:
 * the repaired behaviours as theorems about the model: simultaneous `let` (F13/F13b), binders shadow definitions (F14),
   unknown names are rejected inside terms (F15), `assert` takes Boolean terms (F15c), bound variables keep their
   order (F31);
-* `readTerm_sound_partial` — see `Props/C08Sound.lean` (propositional fragment); the statement for all supported
-  theories, for `let`/quantifiers against the standard's substitution semantics, and `readTerm_wt` are **not** proved:
-  they are covered by the search (S) only.
+* `readTerm_sound_partial` — whenever the parser model and the standard reader `Std.readStd` both accept a text of the
+  propositional fragment (`Sound.PropFrag`: declared constants, `true`, `false` under `not/and/or/=>/xor`, nested
+  arbitrarily) in corresponding environments, the two terms have the same truth value under every interpretation.
+  `_partial`: the statement for `ite`, `=`, `distinct`, arithmetic, bit-vectors, arrays, strings (they need the typing
+  invariant `readTerm_wt`, which is **not** proved), for `let`/quantifiers against the standard's substitution semantics
+  and for definitions is not proved; these are covered by the search (S, two oracles) and by K only. F16 and F17 are
+  outside the fragment by construction (witnesses: `KNOWN_SHAPES` of the harness, `unknown_symbol_lone_known` below).
 -/
 namespace PySMT.Props.C08
 open PySMT PySMT.Parser PySMT.Gen.ParserOps
@@ -88,7 +93,33 @@ theorem quantifier_order (Γ : PEnv) (bs : List Sexp) (Γ' : PEnv) (vs : List Sy
   obtain ⟨new, hv, hl⟩ := rdQuantBinds_order Γ bs [] Γ' vs h
   simp [hv, hl]
 
+/-- **Soundness on the propositional fragment** (see the header for what is missing). -/
+theorem readTerm_sound_partial (env : Std.SEnv) (Γ : PEnv) (hrel : Sound.EnvRel Γ.binds env) (s : Sexp)
+    (hfr : Sound.PropFrag s = true) (t t' : Term) (hpy : readTerm Γ s = .ok t) (hstd : Std.readStd env [] s = .ok t') :
+    ∀ I, C06.truth I t = C06.truth I t' :=
+  Sound.readTerm_sound env Γ hrel s hfr t t' hpy hstd
+
 /-! ## non-vacuity -/
+
+/-- the fragment contains nested connectives over symbols -/
+example : Sound.PropFrag (.list [.atom "and", .atom "p", .list [.atom "not", .list [.atom "=>", .atom "q", .atom "true"]]])
+    = true := by decide
+
+/-- corresponding environments exist: one declared Boolean constant `p` -/
+example : Sound.EnvRel
+    [("p", .term (Term.var "p" .bool)), ("true", .term Term.tt), ("false", .term Term.ff)]
+    { funs := [Sym.var "p" .bool] } := by
+  refine ⟨by simp [lookup], by simp [lookup], ?_, ?_⟩
+  · intro n s h1 h2 hf hp
+    simp only [Std.SEnv.lookupFun, List.find?] at hf
+    split at hf
+    · next heq =>
+      have hn : n = "p" := by simpa [Sym.var] using heq
+      cases hf
+      subst hn
+      simp [lookup, Term.var]
+    · simp at hf
+  · intro n; simp [Std.SEnv.lookupDef]
 
 /-- the hypotheses of `let_simultaneous` are satisfiable: `(let ((x y) (y x)) …)` with declared `x`, `y` -/
 example :
